@@ -83,6 +83,7 @@ int  __CPROVER_uninterpreted_pool_id(int pool, long pos);
 #define POOL_IDX(t, id) __CPROVER_uninterpreted_pool_idx((t), (id))
 #define POOL_ID(t, pos) __CPROVER_uninterpreted_pool_id((t), (pos))
 unsigned long VERIF_pool_size[3];
+_Bool VERIF_pool_sealed[3];   /* ghost: the pool facts of vectors tagged t are in force (off while such a vector is being FILLED, e.g. in _autorange_*) */
 /* definition of the Skolem functions, instantiated at one id */
 static inline long pool_idx_def(int t, int id)
 {
@@ -145,7 +146,7 @@ static inline unsigned long IntVec_size(IntVec *v) { return v->size; }
 static inline int *IntVec_at(IntVec *v, unsigned long i)
 {
   __CPROVER_assert(i < v->size, "std::vector<int>::operator[] inside the vector");
-  if (v->pool) {
+  if (v->pool && VERIF_pool_sealed[v->pool]) {
     /* ASSUMED: type invariant of the pool (distinct entries), point-wise */
     __CPROVER_assume(v->data[i] == POOL_ID(v->pool, (long)i));
     __CPROVER_assume(POOL_IDX(v->pool, v->data[i]) == (long)i);
@@ -153,9 +154,35 @@ static inline int *IntVec_at(IntVec *v, unsigned long i)
   return &v->data[i];
 }
 
+/* ---- construction of containers inside a function under contract: the ghost selections of the new object (ghost value / key /
+ * index, pool tag) are PROPHECY ghosts fixed by the harness; slot k%2 for the k-th stack (MPIMaster: JobStack, WorkerStack). */
+int MPI_new_stack_gval[2], MPI_new_stack_pool[2]; unsigned long MPI_n_stack_ctor;
+long MPI_new_intmap_gkey, MPI_new_ulmap_gkey;
+unsigned long MPI_new_bvec_gidx;
+int MPI_new_vec0_pool, MPI_new_vec1_pool; unsigned long MPI_new_vec0_cap;
+static inline IntStack IntStack_ctor0(void)
+{
+  IntStack s; unsigned long k = MPI_n_stack_ctor % 2; MPI_n_stack_ctor++;
+  s.size = 0; s.top = 0; s.gval = MPI_new_stack_gval[k]; s.gcount = 0; s.pool = MPI_new_stack_pool[k];
+  return s;
+}
+/* std::vector<int>(): empty; storage for MPI_new_vec0_cap entries is set aside (MODEL: push_back never reallocates; ASSERTED there) */
+static inline IntVec IntVec_ctor0(void)
+{
+  IntVec v; v.size = 0; v.pool = MPI_new_vec0_pool;
+  __CPROVER_assume(MPI_new_vec0_cap <= MPI_MAXN);
+  v.data = (int *)malloc(MPI_new_vec0_cap * sizeof(int));
+  __CPROVER_assume(v.data != (int *)0);
+  return v;
+}
+static inline void IntVec_push_back(IntVec *v, int x)
+{
+  __CPROVER_assert(v->size < MPI_new_vec0_cap, "MODEL: the capacity set aside for the vector suffices");
+  v->data[v->size] = x; v->size++;
+}
 static inline IntVec IntVec_ctor1(unsigned long n)
 {
-  IntVec v; v.size = n; v.pool = 0;
+  IntVec v; v.size = n; v.pool = MPI_new_vec1_pool;
   __CPROVER_assume(n <= MPI_MAXN);      /* larger requests end in std::length_error / std::bad_alloc: not modelled */
   v.data = (int *)calloc(n, sizeof(int));
   __CPROVER_assume(v.data != (int *)0);
@@ -175,6 +202,16 @@ static inline _Bool *BoolVec_atp(BoolVec *v, unsigned long i)
 #define BoolVec_at(v, i) (*BoolVec_atp((v), (i)))
 #define Bool_conv_bool(p) (*(p))
 #define Bool_assign(p, b) (*(p) = (b))
+static inline BoolVec BoolVec_ctor0(void) { BoolVec v; v.size = 0; v.data = (_Bool *)0; v.gidx = MPI_new_bvec_gidx; return v; }
+static inline BoolVec BoolVec_ctor2(unsigned long n, _Bool val)     /* vector<bool>(n, val) */
+{
+  BoolVec v; v.size = n; v.gidx = MPI_new_bvec_gidx;
+  __CPROVER_assume(n <= MPI_MAXN);
+  v.data = (_Bool *)calloc(n, sizeof(_Bool));
+  __CPROVER_assume(v.data != (_Bool *)0);
+  if (val) __CPROVER_array_set(v.data, 1);
+  return v;
+}
 static inline BoolIt BoolVec_begin(BoolVec *v) { BoolIt it = { v, 0 }; return it; }
 static inline BoolIt BoolVec_end(BoolVec *v) { BoolIt it = { v, v->size }; return it; }
 unsigned long VERIF_acc_witness;
@@ -251,6 +288,16 @@ typedef struct ReqVec {
   _Bool nobuf;             /* ghost: element invariant "every stored request was posted without a receive buffer and for a specific tag" */
 } ReqVec;
 static inline _Bool ReqVec_wf(ReqVec *v) { return v->size <= MPI_MAXN && __CPROVER_is_fresh(v->data, v->size * sizeof(MpiReq)); }
+static inline ReqVec ReqVec_ctor0(void) { ReqVec v; v.size = 0; v.data = (MpiReq *)0; v.nobuf = 1; return v; }
+/* vector<request>(n): n null requests ("Constructs a NULL request", request.hpp:39) = all-zero MpiReq: inactive, no buffer, tag 0 */
+static inline ReqVec ReqVec_ctor1(unsigned long n)
+{
+  ReqVec v; v.size = n; v.nobuf = 1;
+  __CPROVER_assume(n <= MPI_MAXN);
+  v.data = (MpiReq *)calloc(n, sizeof(MpiReq));
+  __CPROVER_assume(v.data != (MpiReq *)0);
+  return v;
+}
 static inline MpiReq *ReqVec_at(ReqVec *v, unsigned long i)
 {
   __CPROVER_assert(i < v->size, "std::vector<request>::operator[] inside the vector");
@@ -261,6 +308,7 @@ static inline MpiReq *ReqVec_at(ReqVec *v, unsigned long i)
 
 /* ------------------------------------------------------------------ boost::mpi::communicator */
 typedef struct Comm {
+  int id;                           /* ghost: identity of the communicator; 0 = MPI_COMM_WORLD (what communicator() constructs) */
   int rank_, size_;
   /* ghost log of sends */
   unsigned long n_sends;            /* all sends */
@@ -271,6 +319,14 @@ typedef struct Comm {
   unsigned long n_tag_value;        /* ... number of sends of value g_value with tag g_vtag */
   int tag_value_dest;               /* ... and the destination of the most recent one */
 } Comm;
+int MPI_world_rank, MPI_world_size;      /* ghost: rank / size of the world communicator */
+/* boost::mpi::communicator::communicator(): "Build a new Boost.MPI communicator for MPI_COMM_WORLD" (communicator.hpp); empty ghost log */
+static inline Comm Comm_ctor0(void)
+{
+  Comm c; c.id = 0; c.rank_ = MPI_world_rank; c.size_ = MPI_world_size; c.n_sends = 0; c.g_dest = 0; c.g_tag = 0; c.n_dest_tag = 0;
+  c.last_dest_tag_value = 0; c.last_dest_tag_has_value = 0; c.g_vtag = 0; c.g_value = 0; c.n_tag_value = 0; c.tag_value_dest = 0;
+  return c;
+}
 static inline int Comm_rank(Comm *c) { return c->rank_; }
 static inline int Comm_size(Comm *c) { return c->size_; }
 /* spec-file monitor: called for every send BEFORE it is logged */
@@ -363,6 +419,14 @@ static inline int *GMap_at(GMap *m, long k)
 }
 #define IntMap_at(m, k) GMap_at((m), (long)(k))
 #define UlMap_at(m, k) GMap_at((m), (long)(k))
+static inline GMap GMap_ctor0_(long gkey) { GMap m; m.size = 0; m.gkey = gkey; m.gpresent = 0; m.gval = 0; m.other = 0; m.inv_pool = 0; m.gpos = 0; return m; }
+#define IntMap_ctor0() GMap_ctor0_(MPI_new_intmap_gkey)
+#define UlMap_ctor0() GMap_ctor0_(MPI_new_ulmap_gkey)
+/* std::swap of two objects of the same type (MPIMaster::swap) */
+#define VERIF_SWAP_FN(T) static inline void swap_##T(T *a, T *b) { T t = *a; *a = *b; *b = t; }
+typedef unsigned long verif_ulong;
+VERIF_SWAP_FN(verif_ulong) VERIF_SWAP_FN(IntStack) VERIF_SWAP_FN(GMap) VERIF_SWAP_FN(IntVec) VERIF_SWAP_FN(ReqVec) VERIF_SWAP_FN(BoolVec)
+#define swap(a, b) _Generic((a), unsigned long *: swap_verif_ulong, IntStack *: swap_IntStack, GMap *: swap_GMap, IntVec *: swap_IntVec, ReqVec *: swap_ReqVec, BoolVec *: swap_BoolVec)((a), (b))
 #define IntMap_size GMap_size
 #define UlMap_size GMap_size
 /* copy assignment; the printer hands the source over by address or by value depending on what it knows about the parameter */
